@@ -502,14 +502,14 @@ func genPackage(r *hx.Rand, name string, imp string) string {
 		"deriveHashM1(M1{})", "deriveHashM2(M2{})",
 		"deriveEqualL2(L2{}, L2{})", "deriveEqualL1(L1{}, L1{})",
 		"deriveKeysM2(M2{})", "deriveKeysM1(M1{})",
-		"deriveSortL1(L1{})", "deriveSortS2(S2{})", "deriveSortS1(S1{})",
+		"deriveSortI([]int{})", "deriveSortS([]string{})",
 	}
 	for _, t := range twins {
 		if r.Intn(4) != 0 {
 			calls = append(calls, t)
 		}
 	}
-	plugs := []string{"deriveEqual(&T%d{}, &T%d{})", "deriveCompare(&T%d{}, &T%d{})", "deriveHash(&T%d{})", "deriveDeepCopy(&T%d{}, &T%d{})", "deriveClone(&T%d{})", "deriveGoString(&T%d{})"}
+	plugs := []string{"deriveEqualT%d(&T%d{}, &T%d{})", "deriveCompareT%d(&T%d{}, &T%d{})", "deriveHashT%d(&T%d{})", "deriveDeepCopyT%d(&T%d{}, &T%d{})", "deriveCloneT%d(&T%d{})", "deriveGoStringT%d(&T%d{})"}
 	for i := 0; i < nst; i++ {
 		for _, p := range plugs {
 			if r.Intn(3) != 0 {
@@ -522,7 +522,6 @@ func genPackage(r *hx.Rand, name string, imp string) string {
 			}
 		}
 	}
-	calls = append(calls, "deriveEqualU([]int{}, []int{})")
 	if r.Bool() {
 		calls = append(calls, "deriveUnique([]int{})", "deriveSet([]string{})", "deriveContains([]int{}, 1)", "deriveUnion([]int{}, []int{})")
 	}
